@@ -184,6 +184,11 @@ CallChecks(e) ==
     [] e.op = "iter"       -> << <<"iterate", IF M = 0 THEN ~e.res.ok ELSE e.res.ok /\ e.res.v = [j \in 1..M |-> j]>> >>
     [] e.op = "iterpairs"  -> << <<"iterate.two_iterators", IF M = 0 THEN ~e.res.ok ELSE e.res.ok /\ e.res.v = [j \in 1..M |-> <<j, j>>]>> >>
     [] e.op = "mcount"     -> << <<"measures_count", IF M = 0 THEN ~e.res.ok ELSE e.res.ok /\ e.res.v = M>> >>
+    [] e.op = "graph"      -> << <<"graph.ok", e.res.ok>>,
+                                 <<"graph.ranks", e.res.ok => e.res.ranks = GraphRanks>>,
+                                 <<"graph.edges", e.res.ok => ({<<e.res.edges[j][1], e.res.edges[j][2]>> : j \in 1..Len(e.res.edges)} = GraphEdges
+                                                               /\ Len(e.res.edges) = Cardinality(GraphEdges))>>,
+                                 <<"graph.labels", e.res.ok => e.res.labels = GraphLabels>> >>
     [] e.op = "opaque"     -> <<>>                                                        \* a call only watched for purity
     [] e.op = "flag"       -> << <<e.name, e.value>> >>                                   \* a comparison between two REAL objects made by the harness
     [] OTHER -> << <<"unknown_op", FALSE>> >>
